@@ -8,23 +8,29 @@ import_last_revision_info_and_tags), breezy/bzr/workingtree.py
 (InventoryWorkingTree.update / _update_tree / pull).
 
 Cases: random operation sequences (<= 15 ops; thorough <= 25) over ONE master
-branch with its own working tree (M), a heavyweight checkout (H: own branch,
-bound) and a lightweight checkout (L: the branch is the master) with real 2a
-trees: commit in M / H / L, commit --local, update in each tree, pull from the
-master in H, unbind / bind of H; plus an independent branch O (own repository
+branch with its own working tree (M), TWO heavyweight checkouts (H and G: own
+branches, bound) and a lightweight checkout (L: the branch is the master) with
+real 2a trees: commit in M / H / G / L, commit --local, update in each tree,
+pull from the master in H / G, unbind / bind of H / G; bind / unbind of the
+MASTER itself to the third branch (bM / xM: commits through a checkout must
+then fail with CommitToDoubleBoundBranch; operations that would involve the
+master's own master are not generated while it is bound); plus an independent branch O (own repository
 and tree: commit in O, O pulls the master with overwrite), pull from O into H /
 L / M with stop_revision = every revision of O's left-hand line or none, with
-and without overwrite and local=True, and push of H's branch / the master into
-a third branch P.  Sequences are generated adaptively (stop revisions are read
+and without overwrite and local=True (also into G), and push of H's / G's branch /
+the master into a third branch P.  Sequences are generated adaptively (stop revisions are read
 from the real branch O); fixed and corpus sequences run first.  Every commit adds a new file whose name is
 unique to the step, so tree merges never conflict (update and pull run real
 merges).
 
-T2: the whole sequence is replayed by the Lean model (Model/C23.lean, `step`);
+T2: the whole sequence is replayed by the Lean model (Model/C23.lean, `step`;
+    the second checkout is `Op.onH2`, the first one with the roles exchanged);
     after every step both sides are compared on: outcome (ok / error kind),
-    master (revno, tip), local (revno, tip), bound flag, the parent ids of the
-    three working trees, and the tip writes of the step in order (which branch
-    got which revision - from Branch.hooks['post_change_branch_tip']).
+    master (revno, tip), local (revno, tip) and bound flag of BOTH checkouts,
+    the master's own binding, the parent ids of the four working trees, and the
+    tip writes of the step in order (which branch got which revision - from
+    Branch.hooks['post_change_branch_tip']).  The model's revnos are the
+    structural left-hand length of the tip in the model's graph.
 Oracle (independent of the model, after every step): P1 a successful commit in
     the bound checkout ends with master tip = local tip = new revision and the
     tip writes are exactly [master, local] in this order; P2 a commit in the
@@ -44,6 +50,16 @@ Oracle P8: a successful non-local operation (commit, update, pull from the
 master, pull from O with any stop revision) in a bound checkout that was in
 step with its master leaves local tip == master tip; a pull with a stop
 revision moves tips only to that revision; master written before local.
+
+Oracle P9: after every step the tree of each heavyweight checkout is based on
+the tip of its branch (theorem run_tree_basis_invariant).  P10: a commit through
+a bound checkout whose master is itself bound fails with
+CommitToDoubleBoundBranch and changes nothing.  Frame: an operation in one
+heavyweight checkout never changes the other one's branch, binding or tree.
+P8 extended: a checkout in step is still in step after any step-keeping
+operation, refused ones included (theorem run_in_step_invariant).  The clauses
+are evaluated for the second checkout through the same code with the roles of
+the two checkouts exchanged (swap_view).
 
 Finding on the unchanged code (family pull-into-bound-branch-master-moved-before-local-diverged):
 pull from another branch into a bound checkout that has local-only commits pulls
@@ -65,6 +81,8 @@ Mutants tried in a scratch worktree (the family above ignored):
  harmless: _update_branches with the progress-stage calls removed        -> clean
  seeded (coordinator): GenericInterBranch.pull does not pass stop_revision to the master pull
                                                                         -> oracle P8 + stop-revision check + T2 (corpus 01, every seed)
+Improvement round: n1 _check_bound_branch: CommitToDoubleBoundBranch test disabled -> oracle P10 + T2;
+ m1, m4 and the stored seed re-run against the two-checkout alphabet       -> oracle (seeds 0..3)
 """
 import os
 import shutil
@@ -72,17 +90,24 @@ import shutil
 from vlib import env
 
 THEOREMS = [
-    "bound_commit_master_first", "bound_commit_refused_noop", "local_commit_only_local", "master_commit_only_master",
-    "update_equalises_partial", "update_empty_master_witness", "pull_equalises_or_refuses", "refused_noop",
-    "run_master_first", "unbound_commit_only_local",
+    "bound_commit_master_first", "bound_commit_refused_noop", "double_bound_commit_refused", "local_commit_only_local",
+    "master_commit_only_master", "unbound_commit_only_local",
+    "update_equalises_partial", "update_empty_master_witness",
+    "pull_equalises_or_refuses_partial", "pull_equalises", "pull_local_ahead_witness",
+    "refused_noop", "pull_other_refused_exact", "refused_noop_strict",
     "bound_pull_other_same_revision", "pull_other_refused_local_unchanged", "pull_other_master_moved_witness",
-    "pull_other_local_only",
+    "pull_other_local_only", "h2_symmetry", "bound_commit_master_first_h2",
+    "run_master_first", "in_step_preserved", "run_in_step_invariant", "run_in_step_from_init",
+    "run_in_step_after_update", "run_in_step_after_commit", "run_tree_basis_invariant",
+    "bound_commit_revnos", "run_bound_commit_revnos",
 ]
-RULE = ("case = operation sequence over (M, H, L), compared after every step; distinct by op list; non-trivial = at least "
+RULE = ("case = operation sequence over (M, H, G, L, O, P), compared after every step; distinct by op list; non-trivial = at least "
         "one successful commit through the bound checkout and one of (refused commit, --local commit, update that moves a tip, pull)")
 ASSUMPTIONS = [
     "tree merges are conflict-free (every commit adds a fresh file); conflicts during update are the subject of C17/C19",
-    "one master, one heavyweight and one lightweight checkout, local transports; sequences <= 25 ops (theorems: any length)",
+    "one master, two heavyweight checkouts and one lightweight checkout, local transports; sequences <= 25 ops (theorems: any length)",
+    "revision ids are fresh in every history (the driver rejects a sequence that reuses one); while the master is bound itself "
+    "(bM) only operations that do not involve the master's own master are generated (the model answers 'unmodelled' for the others)",
 ]
 TRUSTED = ["Branch.hooks['post_change_branch_tip'] as the observation point of tip writes"]
 
@@ -97,17 +122,21 @@ class World:
         self.mdir = self.m.basedir
         self.hdir = env.fresh_dir("h")
         self.ldir = env.fresh_dir("l")
+        self.gdir = env.fresh_dir("g")
         os.rmdir(self.hdir)
         os.rmdir(self.ldir)
+        os.rmdir(self.gdir)
         b = self.m.branch
         h = b.create_checkout(self.hdir, lightweight=False)
         l_ = b.create_checkout(self.ldir, lightweight=True)
-        for t in (h, l_):
+        g_ = b.create_checkout(self.gdir, lightweight=False)      # the second heavyweight checkout
+        for t in (h, l_, g_):
             with t.lock_write():
                 if t.path2id("") != b"root":
                     t.set_root_id(b"root")
         self.mbase = b.base
         self.hbase = h.branch.base
+        self.gbase = g_.branch.base
         # an independent branch O with its own repository and tree, and an empty third branch P (push target)
         self.o = env.make_tree("2a")
         self.o.set_root_id(b"root")
@@ -122,30 +151,33 @@ class World:
         def hook(params):
             if params.old_revid != params.new_revid:
                 base = params.branch.base
-                if base in (self.mbase, self.hbase):
-                    self.log.append(("m" if base == self.mbase else "h") + ":" + params.new_revid.decode())
+                if base in (self.mbase, self.hbase, self.gbase):
+                    self.log.append({self.mbase: "m", self.hbase: "h", self.gbase: "g"}[base] + ":" + params.new_revid.decode())
         Branch.hooks.install_named_hook("post_change_branch_tip", hook, self.hook_name)
 
     def close(self):
         from breezy.branch import Branch
         Branch.hooks.uninstall_named_hook("post_change_branch_tip", self.hook_name)
-        for d in (self.mdir, self.hdir, self.ldir, self.odir, self.pdir):
+        for d in (self.mdir, self.hdir, self.ldir, self.gdir, self.odir, self.pdir):
             shutil.rmtree(d, ignore_errors=True)
 
     def tree(self, who):
         from breezy.workingtree import WorkingTree
-        return WorkingTree.open({"M": self.mdir, "H": self.hdir, "L": self.ldir, "O": self.odir}[who])
+        return WorkingTree.open({"M": self.mdir, "H": self.hdir, "L": self.ldir, "O": self.odir, "G": self.gdir}[who])
 
     def observe(self):
         from breezy.branch import Branch
         mb = Branch.open(self.mdir)
         hb = Branch.open(self.hdir)
+        gb = Branch.open(self.gdir)
         par = {}
-        for who in "MHLO":
+        for who in "MHLOG":
             par[who] = [p.decode() for p in self.tree(who).get_parent_ids()]
-        mi, hi = mb.last_revision_info(), hb.last_revision_info()
+        mi, hi, gi = mb.last_revision_info(), hb.last_revision_info(), gb.last_revision_info()
         return dict(master=(mi[0], mi[1].decode()), local=(hi[0], hi[1].decode()),
                     bound=hb.get_bound_location() is not None, parents=par,
+                    local2=(gi[0], gi[1].decode()), bound2=gb.get_bound_location() is not None,
+                    mbound=mb.get_bound_location() is not None,
                     other=Branch.open(self.odir).last_revision().decode(), third=Branch.open(self.pdir).last_revision().decode())
 
     def other_line(self):
@@ -178,12 +210,22 @@ class World:
                     raise
             elif k == "sO":
                 self.tree("O").pull(Branch.open(self.mdir), overwrite=True)
-            elif k in ("qH", "qL", "qM"):
+            elif k in ("qH", "qL", "qM", "qG"):
                 _, rev, ow, lo = op.split(":")
                 self.tree(k[1]).pull(Branch.open(self.odir), overwrite=(ow == "T"), local=(lo == "T"),
                                      stop_revision=None if rev == "~" else rev.encode())
-            elif k in ("shH", "shL"):
-                Branch.open(self.hdir if k == "shH" else self.mdir).push(Branch.open(self.pdir))
+            elif k in ("shH", "shL", "shG"):
+                Branch.open({"shH": self.hdir, "shL": self.mdir, "shG": self.gdir}[k]).push(Branch.open(self.pdir))
+            elif k == "bM":
+                Branch.open(self.mdir).bind(Branch.open(self.pdir))
+            elif k == "xM":
+                Branch.open(self.mdir).unbind()
+            elif k == "pG":
+                self.tree("G").pull(Branch.open(self.mdir))
+            elif k == "bG":
+                Branch.open(self.gdir).bind(Branch.open(self.mdir))
+            elif k == "xG":
+                Branch.open(self.gdir).unbind()
             elif k[0] == "u":
                 n = self.tree(k[1]).update()
                 if n:
@@ -205,38 +247,206 @@ def show(out, ob, log):
     return "|".join([out, "%d:%s" % ob["master"], "%d:%s" % ob["local"], "T" if ob["bound"] else "F",
                      "+".join(ob["parents"]["M"]) or "-", "+".join(ob["parents"]["H"]) or "-",
                      "+".join(ob["parents"]["L"]) or "-", "+".join(log) or "-",
-                     ob["other"], "+".join(ob["parents"]["O"]) or "-", ob["third"]])
+                     ob["other"], "+".join(ob["parents"]["O"]) or "-", ob["third"],
+                     "%d:%s" % ob["local2"], "T" if ob["bound2"] else "F", "+".join(ob["parents"]["G"]) or "-",
+                     "T" if ob["mbound"] else "F"])
 
 
-def next_op(rng, w, r):
-    """one op drawn from the alphabet; stop revisions of pulls from O range over O's whole left-hand line"""
-    k = rng.choices(["cH", "cM", "cL", "lH", "uH", "uM", "uL", "p", "x", "b", "lM", "cO", "sO", "qH", "qL", "qM", "shH", "shL"],
-                    [22, 10, 8, 9, 13, 7, 5, 7, 3, 4, 1, 12, 6, 14, 4, 2, 3, 2])[0]
-    if k in ("cH", "cM", "cL", "lH", "lM", "cO"):
+OPS = ["cH", "cM", "cL", "lH", "uH", "uM", "uL", "p", "x", "b", "lM", "cO", "sO", "qH", "qL", "qM", "shH", "shL",
+       "cG", "lG", "uG", "pG", "xG", "bG", "qG", "shG", "bM"]
+WEIGHTS = [20, 9, 7, 9, 12, 6, 4, 7, 3, 4, 1, 11, 6, 13, 4, 2, 3, 2,
+           9, 4, 6, 3, 1, 2, 4, 1, 2]
+# operations that involve the master's own master: not modelled while the master is bound
+NEEDS_UNBOUND_MASTER = ("cM", "cL", "lM", "uM", "uL", "qL", "qM")
+
+
+def next_op(rng, w, r, mbound=False):
+    """one op drawn from the alphabet; stop revisions of pulls from O range over O's whole left-hand line;
+    while the master is bound (bM) it is unbound again soon, and only modelled operations are drawn"""
+    while True:
+        if mbound and rng.random() < 0.3:
+            return "xM", r
+        k = rng.choices(OPS, WEIGHTS)[0]
+        if mbound and (k in NEEDS_UNBOUND_MASTER or k == "bM"):
+            continue
+        break
+    if k in ("cH", "cM", "cL", "lH", "lM", "cO", "cG", "lG"):
         return "%s:r%d" % (k, r + 1), r + 1
-    if k in ("qH", "qL", "qM"):
+    if k in ("qH", "qL", "qM", "qG"):
         line = w.other_line()
         rev = rng.choice(line + ["~"]) if line else "~"
-        return "%s:%s:%s:%s" % (k, rev, "T" if rng.random() < 0.2 else "F", "T" if rng.random() < 0.15 else "F"), r
+        lo = "T" if (rng.random() < 0.15 or mbound) else "F"
+        return "%s:%s:%s:%s" % (k, rev, "T" if rng.random() < 0.2 else "F", lo), r
     return k, r
 
 
-def is_anc(w, a, b):
-    """a is an ancestor of (or equal to) b in the master+local repositories"""
+def is_anc(w, a, b, cdir=None):
+    """a is an ancestor of (or equal to) b in the master + checkout repositories"""
     from breezy.branch import Branch
     if a == NULL:
         return True
-    hb, mb = Branch.open(w.hdir), Branch.open(w.mdir)
+    hb, mb = Branch.open(cdir or w.hdir), Branch.open(w.mdir)
     with hb.lock_read(), mb.lock_read():
         g = hb.repository.get_graph(mb.repository)
         return g.is_ancestor(a.encode(), b.encode())
 
 
+G2H = {"cG": "cH", "lG": "lH", "uG": "uH", "pG": "p", "xG": "x", "bG": "b", "qG": "qH", "shG": "shH"}
+
+
+def swap_view(ob):
+    """the observation with the roles of the two heavyweight checkouts exchanged"""
+    par = dict(ob["parents"])
+    par["H"], par["G"] = ob["parents"]["G"], ob["parents"]["H"]
+    return dict(ob, local=ob["local2"], local2=ob["local"], bound=ob["bound2"], bound2=ob["bound"], parents=par)
+
+
+def judge(op, before, ob, out, log, pre, viol, tag):
+    """the statement's clauses for ONE step, seen from the first heavyweight checkout (operations of
+    the second one are judged through `swap_view`); pre = ancestry facts taken before the step"""
+    k = op.split(":")[0]
+    rev = op.split(":")[1] if ":" in op else None
+    local_ahead, diverged, pivot = pre.get("local_ahead"), pre.get("diverged"), pre.get("pivot")
+
+    def unchanged(what):
+        keys = ("master", "local", "bound", "parents", "local2", "bound2", "mbound")
+        if any(ob[x] != before[x] for x in keys):
+            viol.append((tag + "%s but the state changed: %r -> %r" % (what, before, ob), None))
+    in_step = before["bound"] and before["master"] == before["local"]
+    # frame: the other heavyweight checkout is never touched
+    if (ob["local2"], ob["bound2"], ob["parents"]["G"]) != (before["local2"], before["bound2"], before["parents"]["G"]):
+        viol.append((tag + "the other heavyweight checkout changed: %r %r -> %r %r" % (
+            before["local2"], before["parents"]["G"], ob["local2"], ob["parents"]["G"]), None))
+    if k not in ("bM", "xM") and ob["mbound"] != before["mbound"]:
+        viol.append((tag + "the binding of the master changed", None))
+    # P9: the tree of a heavyweight checkout is based on the tip of its branch
+    if (ob["parents"]["H"][:1] or [NULL]) != [ob["local"][1]]:
+        viol.append((tag + "the checkout's tree is based on %r but its branch tip is %s" % (ob["parents"]["H"][:1], ob["local"][1]), None))
+    if out != "ok":
+        if k == "qH" and out == "E:DivergedBranches" and before["bound"] and ob["master"] != before["master"] and (
+                ob["local"], ob["bound"], ob["parents"], ob["local2"], ob["bound2"]) == (
+                before["local"], before["bound"], before["parents"], before["local2"], before["bound2"]):
+            viol.append((tag + "pull into the bound checkout raised DivergedBranches for the local branch after the master "
+                         "had already been moved %r -> %r" % (before["master"], ob["master"]),
+                         "pull-into-bound-branch-master-moved-before-local-diverged"))
+        else:
+            unchanged("refused with %s" % out)
+            if log:
+                viol.append((tag + "refused with %s but tips were written: %r" % (out, log), None))
+    # P8: a successful non-local operation in a bound checkout that was in step leaves it in step
+    if out == "ok" and in_step and (k in ("cH", "uH", "p") or (k == "qH" and op.split(":")[3] == "F")):
+        if ob["local"] != ob["master"]:
+            viol.append((tag + "checkout was in step with its master, afterwards master %r != local %r" % (
+                ob["master"], ob["local"]), None))
+    # ... and even a refused one does (nothing changed or - never from a state in step - only the master)
+    if in_step and (k in ("cH", "uH", "p", "shH", "shL", "cO", "sO", "uM", "uL", "b", "bM", "xM") or (
+            k == "qH" and op.split(":")[3] == "F")):
+        if ob["local"] != ob["master"] or not ob["bound"]:
+            viol.append((tag + "a checkout in step with its master is out of step after %s (%s): master %r local %r" % (
+                k, out, ob["master"], ob["local"]), None))
+    if k == "qH" and out == "ok":
+        _, rev, ow, lo = op.split(":")
+        if lo == "T":
+            if ob["master"] != before["master"]:
+                viol.append((tag + "pull --local moved the master", None))
+            if not before["bound"]:
+                viol.append((tag + "pull --local succeeded in an unbound branch", None))
+        elif before["bound"]:
+            mch, lch = ob["master"] != before["master"], ob["local"] != before["local"]
+            if mch and lch and log != ["m:" + ob["master"][1], "h:" + ob["local"][1]]:
+                viol.append((tag + "tip writes of the pull are %r, expected master then local" % (log,), None))
+            if rev != "~":
+                for nm in ("master", "local"):
+                    if ob[nm] != before[nm] and ob[nm][1] != rev:
+                        viol.append((tag + "pull with stop revision %s moved the %s tip to %s" % (rev, nm, ob[nm][1]), None))
+        else:
+            if ob["master"] != before["master"]:
+                viol.append((tag + "pull into the unbound branch moved the master", None))
+    if k in ("qL", "qM") and out == "ok":
+        rev = op.split(":")[1]
+        if ob["local"] != before["local"] or (rev != "~" and ob["master"] != before["master"] and ob["master"][1] != rev):
+            viol.append((tag + "pull into the master: local %r -> %r, master %r" % (before["local"], ob["local"], ob["master"]), None))
+    if k in ("shH", "shL", "sO", "cO", "bM", "xM") and (ob["master"], ob["local"], ob["bound"]) != (before["master"], before["local"], before["bound"]):
+        viol.append((tag + "%s changed the master / checkout branches" % k, None))
+    if k in ("bM", "xM") and (out != "ok" or ob["mbound"] != (k == "bM")):
+        viol.append((tag + "bind/unbind of the master: %s, bound %r" % (out, ob["mbound"]), None))
+    if k[0] in "cl" and k[1] in "MHL":
+        # P6: a tree that is not based on the tip it commits to must be refused
+        who = k[1]
+        ref = before["master"] if (who in "ML" or (who == "H" and before["bound"] and k[0] == "c")) else before["local"]
+        tp = (before["parents"][who][:1] or [NULL])[0]
+        if ref[1] != NULL and ref[1] != tp and out == "ok":
+            viol.append((tag + "commit accepted although the tree is based on %s and the branch tip is %s" % (tp, ref[1]), None))
+    if k == "cH":
+        if before["bound"] and before["mbound"]:
+            # P10: the master is itself bound: CommitToDoubleBoundBranch, nothing changes
+            if out != "E:CommitToDoubleBoundBranch":
+                viol.append((tag + "the master is bound itself but the commit through the checkout gave %s" % out, None))
+        elif before["bound"] and before["master"][1] != before["local"][1]:
+            if out != "E:BoundBranchOutOfDate":
+                viol.append((tag + "master %s != local %s but the bound commit gave %s" % (
+                    before["master"][1], before["local"][1], out), None))
+        if out == "ok" and before["bound"]:
+            if not (ob["master"][1] == ob["local"][1] == rev):
+                viol.append((tag + "bound commit ended with master %r local %r" % (ob["master"], ob["local"]), None))
+            if log != ["m:" + rev, "h:" + rev]:
+                viol.append((tag + "tip writes of the bound commit are %r, expected master then local" % (log,), None))
+            if ob["master"][0] != before["master"][0] + 1 or ob["local"][0] != ob["master"][0]:
+                viol.append((tag + "revnos after the bound commit: %r %r" % (ob["master"], ob["local"]), None))
+        if out == "ok" and not before["bound"]:
+            if ob["master"] != before["master"] or ob["local"][1] != rev:
+                viol.append((tag + "unbound commit: master %r -> %r, local %r" % (before["master"], ob["master"], ob["local"]), None))
+    elif k == "lH" and out == "ok":
+        if ob["master"] != before["master"] or ob["local"][1] != rev or log != ["h:" + rev]:
+            viol.append((tag + "commit --local: master %r -> %r, local %r, writes %r" % (
+                before["master"], ob["master"], ob["local"], log), None))
+        if not before["bound"]:
+            viol.append((tag + "commit --local succeeded in an unbound branch", None))
+    elif k in ("cM", "cL") and out == "ok":
+        if ob["local"] != before["local"] or ob["master"][1] != rev or log != ["m:" + rev]:
+            viol.append((tag + "commit to the master: local %r -> %r, master %r, writes %r" % (
+                before["local"], ob["local"], ob["master"], log), None))
+    elif k == "uH" and out == "ok":
+        if before["bound"]:
+            if ob["local"][1] != ob["master"][1] or ob["master"] != before["master"]:
+                fam = None
+                if before["master"][1] == NULL and before["local"][1] != NULL and ob["local"] == before["local"]:
+                    fam = "update-bound-to-empty-master-keeps-local-tip"
+                viol.append((tag + "update in the bound checkout left local %r, master %r" % (ob["local"], ob["master"]), fam))
+            elif (ob["parents"]["H"][:1] or [NULL]) != [ob["master"][1]]:
+                viol.append((tag + "update left the tree based on %r, master tip %r" % (ob["parents"]["H"], ob["master"]), None))
+            elif pivot and before["local"][1] not in ob["parents"]["H"]:
+                # P7: local commits pivoted out of the branch must stay referenced as a pending merge
+                viol.append((tag + "update dropped the old local tip %s: tree parents %r" % (before["local"][1], ob["parents"]["H"]), None))
+        else:
+            if ob["local"] != before["local"] or ob["master"] != before["master"]:
+                viol.append((tag + "update of an unbound tree moved a branch tip", None))
+    elif k in ("uM", "uL") and out == "ok":
+        if (ob["parents"][k[1]][:1] or [NULL]) != [ob["master"][1]] or ob["master"] != before["master"] or ob["local"] != before["local"]:
+            viol.append((tag + "update left tree %s at %r, master %r" % (k[1], ob["parents"][k[1]], ob["master"]), None))
+    elif k == "p":
+        if ob["master"] != before["master"]:
+            viol.append((tag + "pull from the master changed the master", None))
+        if diverged:
+            if out != "E:DivergedBranches":
+                viol.append((tag + "pull of diverged branches gave %s" % out, None))
+        elif local_ahead:
+            if out != "ok" or ob["local"] != before["local"]:
+                viol.append((tag + "pull although the local branch contains the master tip: %s, local %r -> %r" % (
+                    out, before["local"], ob["local"]), None))
+        elif out != "ok" or ob["local"] != ob["master"]:
+            viol.append((tag + "pull left local %r, master %r (%s)" % (ob["local"], ob["master"], out), None))
+    elif k in ("b", "x"):
+        if out != "ok" or ob["bound"] != (k == "b") or (ob["master"], ob["local"], ob["parents"]) != (
+                before["master"], before["local"], before["parents"]):
+            viol.append((tag + "bind/unbind: %s, state %r -> %r" % (out, before, ob), None))
+
+
 def run_sequence(ops, seed=None, n=0):
-    """execute on real trees (ops given, or generated adaptively from `seed`); returns (ops, step strings, violations)"""
+    """execute on real trees (ops given, or generated adaptively from `seed`); returns (ops, step strings, violations, stats)"""
     import random
     w = World()
-    outs, viol = [], []
+    outs, viol, stats = [], [], []
     rng = random.Random(seed) if ops is None else None
     given = ops
     ops = [] if ops is None else list(ops)
@@ -249,148 +459,50 @@ def run_sequence(ops, seed=None, n=0):
             if given is None:
                 if idx >= n:
                     break
-                op, r = next_op(rng, w, r)
+                op, r = next_op(rng, w, r, ob["mbound"])
                 ops.append(op)
             else:
                 if idx >= len(ops):
                     break
                 op = ops[idx]
             before = ob
-            local_ahead = diverged = None
-            if op == "p":
-                local_ahead = is_anc(w, before["master"][1], before["local"][1])
-                diverged = not local_ahead and not is_anc(w, before["local"][1], before["master"][1])
-            pivot = None
-            if op == "uH" and before["bound"] and before["master"][1] != NULL:
-                pivot = not is_anc(w, before["local"][1], before["master"][1])
+            k0 = op.split(":")[0]
+            second = k0 in G2H
+            vb = swap_view(before) if second else before
+            cdir = w.gdir if second else w.hdir
+            kk = G2H.get(k0, k0)
+            pre = {}
+            if kk == "p":
+                pre["local_ahead"] = is_anc(w, vb["master"][1], vb["local"][1], cdir)
+                pre["diverged"] = not pre["local_ahead"] and not is_anc(w, vb["local"][1], vb["master"][1], cdir)
+                stats.append("pull-from-master:" + ("diverged" if pre["diverged"] else "local-ahead" if pre["local_ahead"] else "behind"))
+            if kk == "uH" and vb["bound"] and vb["master"][1] != NULL:
+                pre["pivot"] = not is_anc(w, vb["local"][1], vb["master"][1], cdir)
+                stats.append("update:" + ("pivot" if pre["pivot"] else "no-pivot"))
+            if kk == "cH" and vb["bound"]:
+                stats.append("bound-commit:" + ("master-bound" if vb["mbound"] else
+                                                "in-step" if vb["master"] == vb["local"] else "out-of-step"))
             out = w.do(op)
             log = list(w.log)
             ob = w.observe()
             outs.append(show(out, ob, log))
-            k = op.split(":")[0]
-            rev = op.split(":")[1] if ":" in op else None
             tag = "step %d %s: " % (idx, op)
-
-            def unchanged(what):
-                if (ob["master"], ob["local"], ob["bound"], ob["parents"]) != (
-                        before["master"], before["local"], before["bound"], before["parents"]):
-                    viol.append((tag + "%s but the state changed: %r -> %r" % (what, before, ob), None))
-            in_step = before["bound"] and before["master"] == before["local"]
-            if out != "ok":
-                if k == "qH" and out == "E:DivergedBranches" and before["bound"] and ob["master"] != before["master"] and (
-                        ob["local"], ob["bound"], ob["parents"]) == (before["local"], before["bound"], before["parents"]):
-                    viol.append((tag + "pull into the bound checkout raised DivergedBranches for the local branch after the master "
-                                 "had already been moved %r -> %r" % (before["master"], ob["master"]),
-                                 "pull-into-bound-branch-master-moved-before-local-diverged"))
-                else:
-                    unchanged("refused with %s" % out)
-                    if log:
-                        viol.append((tag + "refused with %s but tips were written: %r" % (out, log), None))
-            # P8: a successful non-local operation in a bound checkout that was in step leaves it in step
-            if out == "ok" and in_step and (k in ("cH", "uH", "p") or (k == "qH" and op.split(":")[3] == "F")):
-                if ob["local"] != ob["master"]:
-                    viol.append((tag + "checkout was in step with its master, afterwards master %r != local %r" % (
-                        ob["master"], ob["local"]), None))
-            if k == "qH" and out == "ok":
-                _, rev, ow, lo = op.split(":")
-                if lo == "T":
-                    if ob["master"] != before["master"]:
-                        viol.append((tag + "pull --local moved the master", None))
-                    if not before["bound"]:
-                        viol.append((tag + "pull --local succeeded in an unbound branch", None))
-                elif before["bound"]:
-                    mch, lch = ob["master"] != before["master"], ob["local"] != before["local"]
-                    if mch and lch and log != ["m:" + ob["master"][1], "h:" + ob["local"][1]]:
-                        viol.append((tag + "tip writes of the pull are %r, expected master then local" % (log,), None))
-                    if rev != "~":
-                        for nm in ("master", "local"):
-                            if ob[nm] != before[nm] and ob[nm][1] != rev:
-                                viol.append((tag + "pull with stop revision %s moved the %s tip to %s" % (rev, nm, ob[nm][1]), None))
-                else:
-                    if ob["master"] != before["master"]:
-                        viol.append((tag + "pull into the unbound branch moved the master", None))
-            if k in ("qL", "qM") and out == "ok":
-                rev = op.split(":")[1]
-                if ob["local"] != before["local"] or (rev != "~" and ob["master"] != before["master"] and ob["master"][1] != rev):
-                    viol.append((tag + "pull into the master: local %r -> %r, master %r" % (before["local"], ob["local"], ob["master"]), None))
-            if k in ("shH", "shL", "sO", "cO") and (ob["master"], ob["local"], ob["bound"]) != (before["master"], before["local"], before["bound"]):
-                viol.append((tag + "%s changed the master / checkout branches" % k, None))
-            if k[0] in "cl" and k[1] in "MHL":
-                # P6: a tree that is not based on the tip it commits to must be refused
-                who = k[1]
-                ref = before["master"] if (who in "ML" or (who == "H" and before["bound"] and k[0] == "c")) else before["local"]
-                tp = (before["parents"][who][:1] or [NULL])[0]
-                if ref[1] != NULL and ref[1] != tp and out == "ok":
-                    viol.append((tag + "commit accepted although the tree is based on %s and the branch tip is %s" % (tp, ref[1]), None))
-            if k == "cH":
-                if before["bound"] and before["master"][1] != before["local"][1]:
-                    if out != "E:BoundBranchOutOfDate":
-                        viol.append((tag + "master %s != local %s but the bound commit gave %s" % (
-                            before["master"][1], before["local"][1], out), None))
-                if out == "ok" and before["bound"]:
-                    if not (ob["master"][1] == ob["local"][1] == rev):
-                        viol.append((tag + "bound commit ended with master %r local %r" % (ob["master"], ob["local"]), None))
-                    if log != ["m:" + rev, "h:" + rev]:
-                        viol.append((tag + "tip writes of the bound commit are %r, expected master then local" % (log,), None))
-                    if ob["master"][0] != before["master"][0] + 1 or ob["local"][0] != ob["master"][0]:
-                        viol.append((tag + "revnos after the bound commit: %r %r" % (ob["master"], ob["local"]), None))
-                if out == "ok" and not before["bound"]:
-                    if ob["master"] != before["master"] or ob["local"][1] != rev:
-                        viol.append((tag + "unbound commit: master %r -> %r, local %r" % (before["master"], ob["master"], ob["local"]), None))
-            elif k == "lH" and out == "ok":
-                if ob["master"] != before["master"] or ob["local"][1] != rev or log != ["h:" + rev]:
-                    viol.append((tag + "commit --local: master %r -> %r, local %r, writes %r" % (
-                        before["master"], ob["master"], ob["local"], log), None))
-                if not before["bound"]:
-                    viol.append((tag + "commit --local succeeded in an unbound branch", None))
-            elif k in ("cM", "cL") and out == "ok":
-                if ob["local"] != before["local"] or ob["master"][1] != rev or log != ["m:" + rev]:
-                    viol.append((tag + "commit to the master: local %r -> %r, master %r, writes %r" % (
-                        before["local"], ob["local"], ob["master"], log), None))
-            elif k == "uH" and out == "ok":
-                if before["bound"]:
-                    if ob["local"][1] != ob["master"][1] or ob["master"] != before["master"]:
-                        fam = None
-                        if before["master"][1] == NULL and before["local"][1] != NULL and ob["local"] == before["local"]:
-                            fam = "update-bound-to-empty-master-keeps-local-tip"
-                        viol.append((tag + "update in the bound checkout left local %r, master %r" % (ob["local"], ob["master"]), fam))
-                    elif (ob["parents"]["H"][:1] or [NULL]) != [ob["master"][1]]:
-                        viol.append((tag + "update left the tree based on %r, master tip %r" % (ob["parents"]["H"], ob["master"]), None))
-                    elif pivot and before["local"][1] not in ob["parents"]["H"]:
-                        # P7: local commits pivoted out of the branch must stay referenced as a pending merge
-                        viol.append((tag + "update dropped the old local tip %s: tree parents %r" % (before["local"][1], ob["parents"]["H"]), None))
-                else:
-                    if ob["local"] != before["local"] or ob["master"] != before["master"]:
-                        viol.append((tag + "update of an unbound tree moved a branch tip", None))
-            elif k in ("uM", "uL") and out == "ok":
-                if (ob["parents"][k[1]][:1] or [NULL]) != [ob["master"][1]] or ob["master"] != before["master"] or ob["local"] != before["local"]:
-                    viol.append((tag + "update left tree %s at %r, master %r" % (k[1], ob["parents"][k[1]], ob["master"]), None))
-            elif k == "p":
-                if ob["master"] != before["master"]:
-                    viol.append((tag + "pull from the master changed the master", None))
-                if diverged:
-                    if out != "E:DivergedBranches":
-                        viol.append((tag + "pull of diverged branches gave %s" % out, None))
-                elif local_ahead:
-                    if out != "ok" or ob["local"] != before["local"]:
-                        viol.append((tag + "pull although the local branch contains the master tip: %s, local %r -> %r" % (
-                            out, before["local"], ob["local"]), None))
-                elif out != "ok" or ob["local"] != ob["master"]:
-                    viol.append((tag + "pull left local %r, master %r (%s)" % (ob["local"], ob["master"], out), None))
-            elif k in ("b", "x"):
-                if out != "ok" or ob["bound"] != (k == "b") or (ob["master"], ob["local"], ob["parents"]) != (
-                        before["master"], before["local"], before["parents"]):
-                    viol.append((tag + "bind/unbind: %s, state %r -> %r" % (out, before, ob), None))
+            if second:
+                op2 = ":".join([kk] + op.split(":")[1:])
+                log2 = [{"h": "g", "g": "h"}.get(e[0], e[0]) + e[1:] for e in log]
+                judge(op2, vb, swap_view(ob), out, log2, pre, viol, tag + "(second checkout) ")
+            else:
+                judge(op, before, ob, out, log, pre, viol, tag)
     finally:
         w.close()
-    return ops, outs, viol
+    return ops, outs, viol, stats
 
 
 def worker(job):
     ops = job.get("ops")
     try:
-        ops, outs, viol = run_sequence(ops, job.get("seed"), job.get("n", 0))
-        return dict(ops=ops, impl=";".join(outs), viol=viol)
+        ops, outs, viol, stats = run_sequence(ops, job.get("seed"), job.get("n", 0))
+        return dict(ops=ops, impl=";".join(outs), viol=viol, stats=stats)
     except Exception as e:
         import traceback
         return dict(ops=ops or [], error="%s: %s\n%s" % (type(e).__name__, e, traceback.format_exc()[-1200:]))
@@ -407,6 +519,12 @@ FIXED = [
     ["cM:r1", "uH", "sO", "cO:r2", "cO:r3", "cO:r4", "qH:r3:F:F", "cH:r5", "shH", "qL:~:F:F", "uH"],
     ["cM:r1", "uH", "sO", "cO:r2", "cO:r3", "qH:r2:F:T", "qH:r3:F:F", "uH", "qH:r3:T:F", "cH:r4"],
     ["cM:r1", "uH", "sO", "cO:r2", "lH:r3", "qH:~:F:F", "qH:r2:T:F", "x", "qH:~:T:F", "shL", "shH"],
+    # two heavyweight checkouts of one master
+    ["cM:r1", "uH", "uG", "cG:r2", "cH:r3", "uH", "cH:r4", "cG:r5", "lG:r6", "uG", "cG:r7", "pG", "p", "uH", "cH:r8"],
+    ["cH:r1", "uG", "lG:r2", "cH:r3", "pG", "uG", "cG:r4", "xG", "cG:r5", "bG", "cG:r6", "uG", "uH"],
+    ["cM:r1", "uG", "sO", "cO:r2", "cO:r3", "qG:r2:F:F", "uH", "lH:r4", "qH:~:F:F", "qG:~:F:F", "shG"],
+    # the master is bound itself: CommitToDoubleBoundBranch
+    ["cM:r1", "uH", "uG", "bM", "cH:r2", "cG:r3", "lH:r4", "xM", "cH:r5", "uH", "cH:r6", "bM", "x", "cH:r7", "xM", "b", "cH:r8"],
 ]
 
 
@@ -427,6 +545,8 @@ def absorb(ctx, res):
         ctx.count("op:%s:%s" % (o.split(":")[0], s.split("|")[0]))
         if o[0] == "q":
             ctx.count("pull-other:stop=%s:overwrite=%s:local=%s" % ("none" if o.split(":")[1] == "~" else "rev", o.split(":")[2], o.split(":")[3]))
+    for st in res.get("stats", []):
+        ctx.count(st)
     for what, fam in res["viol"]:
         ctx.violation(dict(ops=ops), what, family=fam)
     return "run " + (",".join(ops) or "-")
